@@ -73,7 +73,11 @@ class ManifestContext:
 
         now = datetime.datetime.now(tz=UTC())
         if options.clockDrift:
-            now -= datetime.timedelta(seconds=options.clockDrift)
+            try:
+                now -= datetime.timedelta(seconds=options.clockDrift)
+            except OverflowError as err:
+                raise ValueError(
+                    f'Invalid clock drift {options.clockDrift}') from err
         self.minBufferTime = datetime.timedelta(seconds=1.5)
         self.manifest = manifest
         if multi_period:
